@@ -99,7 +99,15 @@ def handleRun (gr k rej script fuel : Sexp) : Option Sexp := do
     | none => .list [.atom "undef"]
     | some (g, out) => .list [.atom "ok", .list out,
         .list (((AList.lookup G.start g.st.costNt).getD []).map encRat)]
-  pure (.list [rf, rr])
+  -- when the float run is undefined: is it the `assert` of CDQueue.push (defined without it)?
+  let na : Sexp := match rf with
+    | .list [.atom "undef"] =>
+      let EN : Env Float := { EF with asserts := false }
+      match (Gen.new EN).bind fun g => runScript EN fuel acts g [] with
+      | none => .atom "undef"
+      | some _ => .atom "ok"
+    | _ => .atom "ok"
+  pure (.list [rf, rr, na])
 
 /-! ### a single queue -/
 inductive QAct where
